@@ -446,3 +446,70 @@ def generic_interp_vs_native(chk, h, cases):
         if not ok:
             chk.cov['interp_vs_native']['mismatches'] += 1
             chk.broken_q('interpreter and native build disagree on %s %r: %r vs native ret %r' % (fn, [getattr(a, 'v', None) for a in args[:3]], ps, ret))
+
+
+# ------------------------------------------------------------------------------------ trigonometric atoms
+class Trig:
+    """canonicalises sin/cos atoms against a table of named angles.
+
+    angles: dict name -> Poly (the angle as a polynomial in the input atoms).  For every sin/cos subterm of the given
+    terms whose argument polynomial equals +-(angle) (decided by the solver on the residual of the arguments, with
+    tolerance arg_tol on the unit box) the atom is substituted by +-S[name] / C[name].  Lemmas (sin^2+cos^2=1, |.|<=1)
+    are then available on the canonical atoms only."""
+
+    def __init__(self, ctx, solver, angles, arg_tol=Fraction(1, 10 ** 13)):
+        self.ctx = ctx
+        self.solver = solver
+        self.angles = angles
+        self.S = {}
+        self.C = {}
+        self.pairs = []
+        self.unmatched = []
+        self.matched = {}
+        self.arg_tol = arg_tol
+        for name in angles:
+            s = T.var('S[%s]' % name)
+            c = T.var('C[%s]' % name)
+            self.S[name] = ctx.atom(s)
+            self.C[name] = ctx.atom(c)
+            self.pairs.append((self.C[name], self.S[name]))
+
+    def sin(self, name):
+        return Poly.atom(self.S[name])
+
+    def cos(self, name):
+        return Poly.atom(self.C[name])
+
+    def canon(self, terms):
+        res = Residual(self.solver, self.ctx, box=1, tol=self.arg_tol)
+        for t in T.atoms_of(terms, ('sin', 'cos')):
+            if t.id in self.ctx.atom_of:
+                continue
+            ap = self.ctx.poly(t.args[0])
+            hit = None
+            for name, w in self.angles.items():
+                for sg in (1, -1):
+                    diff = ap - w.scale(sg)
+                    if diff.is_zero() or (diff.l1() <= self.arg_tol * 8 and res.relax_query([diff], None) == 'unsat'):
+                        hit = (name, sg)
+                        break
+                if hit:
+                    break
+            i = self.ctx.atom(t)
+            if hit is None:
+                self.unmatched.append(t)
+                continue
+            name, sg = hit
+            self.matched[t.id] = hit
+            if t.op == 'sin':
+                self.ctx.subst[i] = self.sin(name).scale(sg)
+            else:
+                self.ctx.subst[i] = self.cos(name)
+
+    def bounds(self, residual):
+        for c, s in self.pairs:
+            residual.atom_bound[c] = Fraction(1)
+            residual.atom_bound[s] = Fraction(1)
+
+    def reduce(self, p):
+        return self.ctx.reduce_squares(p, self.pairs)
